@@ -205,6 +205,11 @@ pub enum Kind {
     MemAdvise,
     SpliceTo,
     SpliceFrom,
+    /// Splices with explicit offsets on both sides.
+    SpliceToAt,
+    SpliceFromAt,
+    /// `open_temp_file` asking for a direct descriptor.
+    OpenTempDirect,
     SendToVectored,
     OpenTemp,
     RecvN,
@@ -277,13 +282,13 @@ impl Kind {
             WriteVec | WriteStatic | WriteString | WriteBoxed | WriteArc | WriteVectored2
             | WriteVectoredTuple | Send | SendTo | SendVectored | Connect | Bind | SetSockOpt
             | CreateDir | Rename | RemoveFile | Fsync | Truncate | Shutdown | CloseFd | Listen | SyncData | FAdvise
-            | Allocate | MemAdvise | SpliceTo | SpliceFrom | SendToVectored | CreateDirExtract | RenameExtract | RemoveExtract | WriteVecAt | WriteVectoredAt | SendMore | SendToMore => Class::Plain,
+            | Allocate | MemAdvise | SpliceTo | SpliceFrom | SpliceToAt | SpliceFromAt | SendToVectored | CreateDirExtract | RenameExtract | RemoveExtract | WriteVecAt | WriteVectoredAt | SendMore | SendToMore => Class::Plain,
             SendZc | SendToZc | SendVectoredZc | SendZcMore => Class::TwoStep,
             ReadPool | RecvPool | RecvFromPool | RecvPoolWaitAll => Class::PoolOne,
             MultishotRead | MultishotRecv | MultishotRecvPeek => Class::StreamBuf,
             MultishotAccept => Class::StreamDesc,
             Accept | AcceptNoAddr | OpenFile | OpenDirect | Socket | SocketDirect | Pipe
-            | PipeDirect | ToDirect | OpenTemp | ToFd | OpenExtract => Class::Desc,
+            | PipeDirect | ToDirect | OpenTemp | OpenTempDirect | ToFd | OpenExtract => Class::Desc,
             ReadN | WriteAll | WriteAllVectored | SendAll | RecvN | ReadNVectored | SendAllVectored => Class::Composite,
             Pollable => Class::StreamUnit,
             ReceiveSignals | ReceiveSignalsIntoInner => Class::Rearm,
@@ -298,7 +303,7 @@ impl Kind {
             ReadVec | ReadVecPrefilled | ReadVectored2 | Recv | RecvVectored | RecvFrom | RecvFromVectored | ReadLimited
                 | WriteVec | WriteStatic | WriteString | WriteBoxed | WriteArc | WriteVectored2 | WriteVectoredTuple
                 | Send | SendTo | SendVectored | ReadPool | RecvPool | RecvFromPool | ReadN | WriteAll | WriteAllVectored | SendAll
-                | SpliceTo | SpliceFrom | SendToVectored | RecvN | ReadNVectored | SendAllVectored | RereadHeld | ReadVecFrom
+                | SpliceTo | SpliceFrom | SpliceToAt | SpliceFromAt | SendToVectored | RecvN | ReadNVectored | SendAllVectored | RereadHeld | ReadVecFrom
                 | WriteVecAt | ReadVectoredFrom | WriteVectoredAt | RecvPeek | RecvPoolWaitAll | RecvFromPeek | SendMore | SendToMore
         )
     }
@@ -308,7 +313,7 @@ impl Kind {
     }
 
     pub fn needs_direct_table(self) -> bool {
-        matches!(self, Kind::OpenDirect | Kind::SocketDirect | Kind::PipeDirect | Kind::ToDirect)
+        matches!(self, Kind::OpenDirect | Kind::SocketDirect | Kind::PipeDirect | Kind::ToDirect | Kind::OpenTempDirect)
     }
 
     pub fn is_stream(self) -> bool {
@@ -479,9 +484,15 @@ pub fn make(kind: Kind, env: &Env<'_>) -> Op {
         ),
         SpliceTo => single(fd.splice_to(unsafe { std::os::fd::BorrowedFd::borrow_raw(1) }, 64 + n as u32), |c: usize, _| format!("n:{c}")),
         SpliceFrom => single(fd.splice_from(unsafe { std::os::fd::BorrowedFd::borrow_raw(0) }, 32 + n as u32), |c: usize, _| format!("n:{c}")),
+        SpliceToAt => single(fd.splice_to(unsafe { std::os::fd::BorrowedFd::borrow_raw(1) }, 48 + n as u32).from(0x10).at(0x2000), |c: usize, _| format!("n:{c}")),
+        SpliceFromAt => single(fd.splice_from(unsafe { std::os::fd::BorrowedFd::borrow_raw(0) }, 40 + n as u32).from(0x30).at(0x4000), |c: usize, _| format!("n:{c}")),
         SendToVectored => single(fd.send_to_vectored([data(n, 2), data(n, 4)], v4(n)), |c: usize, _| format!("n:{c}")),
         OpenTemp => single(
             a10::fs::OpenOptions::new().write().open_temp_file(env.sq.clone(), PathBuf::from("/verif-simk/tmpdir")),
+            |f: AsyncFd, h| fd_str(f, h),
+        ),
+        OpenTempDirect => single(
+            a10::fs::OpenOptions::new().write().kind(FdKind::Direct).open_temp_file(env.sq.clone(), PathBuf::from("/verif-simk/tmpdir")),
             |f: AsyncFd, h| fd_str(f, h),
         ),
         RecvN => single(fd.recv_n(Vec::with_capacity(10), 6), |b: Vec<u8>, _| format!("bytes:{}", hex(&b))),
